@@ -29,22 +29,42 @@ where
     vassert!(item.into_owned() == x, "VF:slice.read.into_owned");
 }
 
+fn arr<const N: usize>(x: &[u8]) -> [u8; N] {
+    let mut a = [0u8; N];
+    a.copy_from_slice(x);
+    a
+}
 fn push_form(r: &mut SR, x: &[u8], form: u64) -> (usize, usize) {
     match form {
         0 => r.push(x),
         1 => r.push(x.to_vec()),
         2 => r.push(&x.to_vec()),
-        _ => r.push(&&x.to_vec()),
+        3 => r.push(&&x.to_vec()),
+        // array forms: [T; N], &[T; N], &&[T; N]
+        f => match (x.len(), f) {
+            (0, 4) => r.push(arr::<0>(x)),
+            (1, 4) => r.push(arr::<1>(x)),
+            (2, 4) => r.push(arr::<2>(x)),
+            (_, 4) => r.push(arr::<3>(x)),
+            (0, 5) => r.push(&arr::<0>(x)),
+            (1, 5) => r.push(&arr::<1>(x)),
+            (2, 5) => r.push(&arr::<2>(x)),
+            (_, 5) => r.push(&arr::<3>(x)),
+            (0, _) => r.push(&&arr::<0>(x)),
+            (1, _) => r.push(&&arr::<1>(x)),
+            (2, _) => r.push(&&arr::<2>(x)),
+            (_, _) => r.push(&&arr::<3>(x)),
+        },
     }
 }
 
 // ------------------------------------------------------------------------------------------------ slice_roundtrip
 // args: n0 n1 a0 a1 a2 b0 b1 b2 form reserve
 fn pre_slice_rt(v: &[u64]) -> bool {
-    v[0] <= 3 && v[1] <= 3 && all_le(v, 2, 8, 255) && v[8] < 4 && v[9] < 2
+    v[0] <= 3 && v[1] <= 3 && all_le(v, 2, 8, 255) && v[8] < 7 && v[9] < 2
 }
 fn doms_slice_rt() -> Vec<Vec<u64>> {
-    vec![range(4), range(4), bytes(), vec![7], vec![9], bytes(), vec![7], vec![1], range(4), range(2)]
+    vec![range(4), range(4), bytes(), vec![7], vec![9], bytes(), vec![7], vec![1], range(7), range(2)]
 }
 fn run_slice_rt(v: &[u64]) {
     let x = bytes3(v, 2, v[0]);
@@ -60,7 +80,7 @@ fn run_slice_rt(v: &[u64]) {
         r.reserve_regions(std::iter::once(&twin));
         read_is(r.index(i0), &x);
     }
-    let i1 = push_form(&mut r, &y, (v[8] + 1) % 4);
+    let i1 = push_form(&mut r, &y, (v[8] + 1) % 7);
     let t1 = twin.push(y.as_slice());
     vassert!(i1 == t1, "VF:slice.forms.index1");
     read_is(r.index(i0), &x);
@@ -224,10 +244,10 @@ fn run_fan(v: &[u64]) {
 // ------------------------------------------------------------------------------------------------ columns: ragged rows (C12, C01, C02, C13, C20)
 // args: w0 w1 w2 (row widths 0..3), form (0..5), offs (0: IndexOptimized, 1: Vec<usize>), probe (position for the out-of-bounds probe)
 fn pre_cols(v: &[u64]) -> bool {
-    v[0] <= 3 && v[1] <= 3 && v[2] <= 3 && v[3] < 5 && v[4] < 2
+    v[0] <= 3 && v[1] <= 3 && v[2] <= 3 && v[3] < 7 && v[4] < 2
 }
 fn doms_cols() -> Vec<Vec<u64>> {
-    vec![range(4), range(4), range(4), range(5), range(2), vec![0, 1, 2, 3, 4, u64::MAX]]
+    vec![range(4), range(4), range(4), range(7), range(2), vec![0, 1, 2, 3, 4, u64::MAX]]
 }
 fn row(k: usize, w: u64) -> Vec<u8> {
     (0..w as usize).map(|c| (10 * (k + 1) + c) as u8).collect()
@@ -237,11 +257,23 @@ fn cols_body<O: flatcontainer::impls::index::IndexContainer<usize>>(v: &[u64]) {
     let mut r = <ColumnsRegion<MirrorRegion<u8>, O>>::default();
     let mut idx = Vec::new();
     for (k, x) in rows.iter().enumerate() {
-        let i = match (v[3] + k as u64) % 5 {
+        let i = match (v[3] + k as u64) % 7 {
             0 => r.push(x.as_slice()),
             1 => r.push(x.clone()),
             2 => r.push(x),
             3 => r.push(PushIter(x.iter().copied())),
+            5 => match x.len() {
+                0 => r.push(arr::<0>(x)),
+                1 => r.push(arr::<1>(x)),
+                2 => r.push(arr::<2>(x)),
+                _ => r.push(arr::<3>(x)),
+            },
+            6 => match x.len() {
+                0 => r.push(&arr::<0>(x)),
+                1 => r.push(&arr::<1>(x)),
+                2 => r.push(&arr::<2>(x)),
+                _ => r.push(&arr::<3>(x)),
+            },
             _ => {
                 // a read item of another region of the same type
                 let mut other = <ColumnsRegion<MirrorRegion<u8>, O>>::default();
@@ -445,12 +477,47 @@ fn run_sio(v: &[u64]) {
     vassert!(i0 == (0, x.len()) && i1 == (x.len(), all.len()), "VF:slice_opt.index");
 }
 
+// ------------------------------------------------------------------------------------------------ OwnedRegion forms with their own code path
+// args: n (0..3), a0 a1 a2, form (0 [T;N], 1 PushIter over a Vec, 2 PushIter over an array iterator), prefill (0/1)
+fn pre_of(v: &[u64]) -> bool {
+    v[0] <= 3 && all_le(v, 1, 4, 255) && v[4] < 3 && v[5] < 2
+}
+fn doms_of() -> Vec<Vec<u64>> {
+    vec![range(4), bytes(), vec![7], vec![9], range(3), range(2)]
+}
+fn run_of(v: &[u64]) {
+    let x = bytes3(v, 1, v[0]);
+    let mut r = <OwnedRegion<u8>>::default();
+    let mut t = <OwnedRegion<u8>>::default();
+    if v[5] == 1 {
+        let _ = r.push([1u8, 2].as_slice());
+        let _ = t.push([1u8, 2].as_slice());
+    }
+    let i = match v[4] {
+        0 => match x.len() {
+            0 => r.push(arr::<0>(&x)),
+            1 => r.push(arr::<1>(&x)),
+            2 => r.push(arr::<2>(&x)),
+            _ => r.push(arr::<3>(&x)),
+        },
+        1 => r.push(PushIter(x.clone())),
+        _ => r.push(PushIter(x.iter().copied().collect::<Vec<u8>>().into_iter())),
+    };
+    let j = t.push(x.as_slice());
+    vassert!(i == j, "VF:owned.forms.index");
+    vassert!(r.index(i) == x.as_slice() && t.index(j) == x.as_slice(), "VF:owned.forms.read");
+    let (hr, ht) = (collect_heap(|cb| r.heap_size(cb)), collect_heap(|cb| t.heap_size(cb)));
+    vassert!(hr[0].0 == ht[0].0, "VF:owned.forms.used_bytes");
+}
+
 pub fn harnesses() -> Vec<H> {
     vec![
         H { name: "slice_roundtrip", props: &["C01", "C02", "C20", "C10"], nargs: 10, pre: pre_slice_rt, doms: doms_slice_rt, run: run_slice_rt, panic_ok: false,
-            bound: "SliceRegion<MirrorRegion<u8>>: two items of length 0..3, element bytes arbitrary (native: {0,1,255}), four input forms, optional reserve_items/reserve_regions in between; twin fed the canonical form", kani: false },
+            bound: "SliceRegion<MirrorRegion<u8>>: two items of length 0..3, element bytes arbitrary (native: {0,1,255}), seven input forms (slice, Vec, &Vec, &&Vec, [T;N], &[T;N], &&[T;N]), optional reserve_items/reserve_regions in between; twin fed the canonical form", kani: false },
         H { name: "slice_index_optimized", props: &["C01", "C02", "C03", "C05"], nargs: 7, pre: pre_sio, doms: doms_sio, run: run_sio, panic_ok: false,
             bound: "SliceRegion<MirrorRegion<usize>, IndexOptimized>: five inner indices over a 10-value alphabet {0..7, u32::MAX, u32::MAX+1} split into two items at any point (IndexContainer::extend inside one push), three input forms; both items re-read after each push", kani: false },
+        H { name: "owned_forms", props: &["C20", "C01"], nargs: 6, pre: pre_of, doms: doms_of, run: run_of, panic_ok: false,
+            bound: "OwnedRegion<u8>: [T;N] and PushIter forms (the two forms outside the Verus dialect) versus &[T] on twins, item length 0..3, empty or pre-filled region", kani: false },
         H { name: "slice_nested", props: &["C01", "C02"], nargs: 7, pre: pre_nested, doms: doms_nested, run: run_nested, panic_ok: false,
             bound: "SliceRegion<SliceRegion<MirrorRegion<u8>>>: one earlier item plus an outer item of 0..2 inner vectors of length 0..2, bytes arbitrary", kani: false },
         H { name: "string_compositions", props: &["C01", "C02", "C04", "C12"], nargs: 4, pre: pre_str, doms: doms_str, run: run_str, panic_ok: false,
@@ -458,7 +525,7 @@ pub fn harnesses() -> Vec<H> {
         H { name: "fanout_roundtrip", props: &["C01", "C02", "C20", "C14"], nargs: 8, pre: pre_fan, doms: doms_fan, run: run_fan, panic_ok: false,
             bound: "OptionRegion<StringRegion>, ResultRegion<StringRegion, MirrorRegion<u8>>, TupleABRegion<StringRegion, MirrorRegion<u64>>: two pushes, each variant, owned and reference forms, twin fed owned forms", kani: false },
         H { name: "columns_ragged", props: &["C12", "C01", "C02", "C13", "C20"], nargs: 6, pre: pre_cols, doms: doms_cols, run: run_cols, panic_ok: true,
-            bound: "ColumnsRegion<MirrorRegion<u8>> with IndexOptimized and Vec<usize> offsets: three rows of width 0..3 in any order, five input forms rotated over the rows, all rows re-read after every push, out-of-bounds probe at any position", kani: false },
+            bound: "ColumnsRegion<MirrorRegion<u8>> with IndexOptimized and Vec<usize> offsets: three rows of width 0..3 in any order, seven input forms (slice, Vec, &Vec, PushIter, read item of another region, [T;N], &[T;N]) rotated over the rows, all rows re-read after every push, out-of-bounds probe at any position", kani: false },
         H { name: "collapse_boundaries", props: &["C11", "C08", "C09", "C10"], nargs: 5, pre: pre_collapse, doms: doms_collapse, run: run_collapse, panic_ok: false,
             bound: "CollapseSequence at the top, over ConsecutiveIndexPairs, inside a tuple and inside a slice region: three strings over a 3-value domain; boundaries none / clear / merge_regions / clone / clone_from into a pre-filled destination", kani: false },
     ]
